@@ -19,39 +19,43 @@ VARIABLES flags,      \* set of flag names
           reqi, proto,                         \* "tcp" | "udp" | "relay"
           local,                               \* udp local address given ?
           mode,                                \* "C" | "U"
+          verify,                              \* the version gate of the connection to be built (C09); on by default
           calls                                \* history of setter calls (hidden by VIEW unless Emit)
-vars == <<flags, prefix, interval, iname, admin, reqi, proto, local, mode, calls>>
-view == <<flags, prefix, interval, iname, admin, reqi, proto, local, mode, Len(calls)>>
+vars == <<flags, prefix, interval, iname, admin, reqi, proto, local, mode, verify, calls>>
+view == <<flags, prefix, interval, iname, admin, reqi, proto, local, mode, verify, Len(calls)>>
 
 Init == /\ flags = {} /\ prefix = NoneV /\ interval = NoneV /\ iname = NoneV /\ admin = NoneV
-        /\ reqi = 0 /\ proto = "tcp" /\ local = FALSE /\ mode = "C" /\ calls = <<>>
+        /\ reqi = 0 /\ proto = "tcp" /\ local = FALSE /\ mode = "C" /\ verify = TRUE /\ calls = <<>>
 
 Call(name, arg) == calls' = Append(calls, [name |-> name, arg |-> arg])
 Can == Len(calls) < MaxCalls
 
 SetFlag(f, on) == /\ Can /\ flags' = (IF on THEN flags \cup {f} ELSE flags \ {f}) /\ Call("isi_flag", [flag |-> f, on |-> on])
-                  /\ UNCHANGED <<prefix, interval, iname, admin, reqi, proto, local, mode>>
+                  /\ UNCHANGED <<prefix, interval, iname, admin, reqi, proto, local, mode, verify>>
 SetFlags(fs) == /\ Can /\ flags' = fs /\ Call("isi_flags", SetToSeq(fs))
-                /\ UNCHANGED <<prefix, interval, iname, admin, reqi, proto, local, mode>>
+                /\ UNCHANGED <<prefix, interval, iname, admin, reqi, proto, local, mode, verify>>
 SetPrefix(p) == /\ Can /\ prefix' = p /\ Call("isi_prefix", p)
-                /\ UNCHANGED <<flags, interval, iname, admin, reqi, proto, local, mode>>
+                /\ UNCHANGED <<flags, interval, iname, admin, reqi, proto, local, mode, verify>>
 SetInterval(i) == /\ Can /\ interval' = i /\ Call("isi_interval", i)
-                  /\ UNCHANGED <<flags, prefix, iname, admin, reqi, proto, local, mode>>
+                  /\ UNCHANGED <<flags, prefix, iname, admin, reqi, proto, local, mode, verify>>
 SetIname(n) == /\ Can /\ iname' = n /\ Call("isi_iname", n)
-               /\ UNCHANGED <<flags, prefix, interval, admin, reqi, proto, local, mode>>
+               /\ UNCHANGED <<flags, prefix, interval, admin, reqi, proto, local, mode, verify>>
 SetAdmin(a) == /\ Can /\ admin' = a /\ Call("isi_admin_password", a)
-               /\ UNCHANGED <<flags, prefix, interval, iname, reqi, proto, local, mode>>
+               /\ UNCHANGED <<flags, prefix, interval, iname, reqi, proto, local, mode, verify>>
 SetReqi(r) == /\ Can /\ reqi' = r /\ Call("isi_reqi", r)
-              /\ UNCHANGED <<flags, prefix, interval, iname, admin, proto, local, mode>>
+              /\ UNCHANGED <<flags, prefix, interval, iname, admin, proto, local, mode, verify>>
 UseTcp == /\ Can /\ proto' = "tcp" /\ Call("tcp", 0)
-          /\ UNCHANGED <<flags, prefix, interval, iname, admin, reqi, local, mode>>
+          /\ UNCHANGED <<flags, prefix, interval, iname, admin, reqi, local, mode, verify>>
 \* udp(remote, local): replaces the local address, also by None
 UseUdp(withLocal) == /\ Can /\ proto' = "udp" /\ local' = withLocal /\ Call("udp", withLocal)
-                     /\ UNCHANGED <<flags, prefix, interval, iname, admin, reqi, mode>>
+                     /\ UNCHANGED <<flags, prefix, interval, iname, admin, reqi, mode, verify>>
 UseRelay == /\ Can /\ proto' = "relay" /\ Call("relay", 0)
-            /\ UNCHANGED <<flags, prefix, interval, iname, admin, reqi, local, mode>>
+            /\ UNCHANGED <<flags, prefix, interval, iname, admin, reqi, local, mode, verify>>
 SetMode(m) == /\ Can /\ mode' = m /\ Call(IF m = "C" THEN "compressed" ELSE "uncompressed", 0)
-              /\ UNCHANGED <<flags, prefix, interval, iname, admin, reqi, proto, local>>
+              /\ UNCHANGED <<flags, prefix, interval, iname, admin, reqi, proto, local, verify>>
+
+SetVerify(b) == /\ Can /\ verify' = b /\ Call("verify_version", b)
+                /\ UNCHANGED <<flags, prefix, interval, iname, admin, reqi, proto, local, mode>>
 
 PrefixVals == {NoneV, SomeV(33)}
 Intervals == {NoneV, SomeV(250), SomeV(1000)}
@@ -68,6 +72,7 @@ Next == \/ \E f \in FlagNames, on \in BOOLEAN : SetFlag(f, on)
         \/ \E r \in {0, 7} : SetReqi(r)
         \/ UseTcp \/ UseUdp(TRUE) \/ UseUdp(FALSE) \/ UseRelay
         \/ \E m \in {"C", "U"} : SetMode(m)
+        \/ \E b \in BOOLEAN : SetVerify(b)
 Spec == Init /\ [][Next]_vars
 
 \* the ISI the configuration must produce; LocalPort stands for the port of the configured local address
@@ -81,6 +86,7 @@ IsiOf == [reqi |-> reqi,
           interval |-> [ms |-> <<IF interval.some THEN interval.v ELSE 0, 0, 0, 0>>, ns |-> 0],
           admin |-> IF admin.some THEN admin.v ELSE <<>>,
           iname |-> IF iname.some THEN iname.v ELSE DefaultIname]
+\* the connection that connect_*() returns applies the version gate iff `verify` (C09: "only when enabled")
 \* connecting sends that ISI as the first and only frame, in the configured size mode
 Handshake == SpecEncode("Isi", IsiOf, mode)
 
@@ -88,6 +94,6 @@ TypeOK == flags \subseteq FlagNames /\ proto \in {"tcp", "udp", "relay"} /\ mode
 \* the handshake is always one well-formed 44-byte ISI frame
 HandshakeOk == /\ Len(Handshake) = 44 /\ Handshake[2] = 1 /\ Handshake[3] = reqi
                /\ Handshake[1] = (IF mode = "C" THEN 11 ELSE 44)
-EmitInv == IF Emit THEN PrintT(<<"BUILD", ToJson([calls |-> calls, isi |-> IsiOf, proto |-> proto, local |-> local, mode |-> mode,
+EmitInv == IF Emit THEN PrintT(<<"BUILD", ToJson([calls |-> calls, isi |-> IsiOf, proto |-> proto, local |-> local, mode |-> mode, gate |-> verify,
                                                    handshake |-> Handshake])>>) ELSE TRUE
 =============================================================================
